@@ -143,6 +143,17 @@ Definition has_header (c : case) : bool :=
   match c with CTunnel _ _ _ _ _ _ _ (_ :: _) _ _ _ _ _ _ _ _ _ _ _ _ _ _ _ _ => true | _ => false end.
 Definition is_aged_mux (c : case) : bool :=
   match c with CMux _ _ _ _ _ age timeout _ _ => timeout <? age | _ => false end.
+(* finding F-C01c evaluated over TODAY's translated yamux configuration: is the configuration the one the model
+   assumes, what is the lowest drain rate (B/s) that still gets a full window through before StreamCloseTimeout,
+   and does the recorded witness (8 KB/s, 4 MiB written and closed) lose its tail *)
+Definition yamux_window : Z := fold_right (fun x acc => match x with (_, _, w) => Z.max w acc end) 0 yamux_window_bytes.
+Definition yamux_cfg_today_ok : bool := yamux_cfg_ok yamux_cfg_sites yamux_window_bytes yamux_default_close_timeout_ms.
+Definition yamux_safe_rate : Z :=
+  if 0 <? yamux_default_close_timeout_ms
+  then (yamux_window * 1000 + yamux_default_close_timeout_ms - 1) / yamux_default_close_timeout_ms else -1.
+Definition slow_receiver_witness_truncates : bool :=
+  drain_delivered yamux_default_close_timeout_ms 8192 4194304 <? 4194304.
+
 Definition is_first (c : case) : bool := match c with CMuxFirst _ _ _ => true | _ => false end.
 Definition is_drain (c : case) : bool := match c with CDrain _ _ _ _ _ _ => true | _ => false end.
 Definition is_split (c : case) : bool :=
